@@ -410,9 +410,7 @@ def main(tier):
     pd = quiet_pydrex()
     from pydrex import stats
 
-    fn = stats.resample_orientations
-    if pd.resample_orientations is not fn:
-        raise MachineryError("pydrex.resample_orientations is not pydrex.stats.resample_orientations")
+    fn = getattr(pd, "resample_orientations", None) or stats.resample_orientations  # observe_at: the public name
 
     lines, meta = [], {}
     tid = 0
